@@ -113,9 +113,9 @@ impl Prop for C01P {
         let mut p = Plan::new(
             vec![
                 sec("pinned", 200),
-                sec("explicit-programs", tier.pick(12_000, 250_000)),
-                sec("inferred-programs", tier.pick(12_000, 250_000)),
-                sec("perturbed-programs", tier.pick(20_000, 400_000)),
+                sec("explicit-programs", tier.pick(24_000, 250_000)),
+                sec("inferred-programs", tier.pick(24_000, 250_000)),
+                sec("perturbed-programs", tier.pick(40_000, 400_000)),
                 crate::fw::sec_ex("small-programs-exhaustive", crate::gen_small::total_upto(tier.pick(5, 6)).div_ceil(256)),
             ],
             "every program accepted by tokenize+parse+type_check among: generated explicit and inferred programs (recursive and mutually recursive groups, nested groups, forward references, higher-order and polymorphic functions, type-level computation, omitted annotations and `_`), single-point perturbations of them (whatever the checker lets through is evaluated), the corpus, and every source program of at most 5 (quick) / 6 (thorough) nodes over the full syntax (exhaustive); the elaborated term is stepped up to 4000 (quick) / 20000 (thorough) steps; non-trivial = distinct accepted program that performed at least one step",
